@@ -227,6 +227,21 @@ pub fn finish_obs(r: Result<sle::error::Result<StorageLayout>, String>, ctl: Con
     }
 }
 
+/// The one-call entry point WITHOUT a controller: real random hash seeds and random identifiers, as a user
+/// of the library gets them. Not replayable; used only as a cross-check that the hooks own every source of
+/// nondeterminism.
+pub fn analyze_natural(bytes: &[u8], vm: sle::vm::Config, watchdog: DynWatchdog) -> Obs {
+    let _ = verif_hooks::uninstall();
+    let r = std::panic::catch_unwind(std::panic::AssertUnwindSafe(|| {
+        sle::new(contract(bytes), vm, sle::tc::Config::default(), watchdog).analyze()
+    }));
+    let r = match r {
+        Ok(v) => Ok(v),
+        Err(_) => Err(crate::infra::take_last_panic()),
+    };
+    finish_obs(r, Controller::default())
+}
+
 pub fn lazy() -> DynWatchdog {
     LazyWatchdog.in_rc()
 }
